@@ -5,7 +5,9 @@ import (
 	"flag"
 	"fmt"
 	"os"
+	"path/filepath"
 	"runtime"
+	"strings"
 
 	"verifharness/cborx"
 )
@@ -51,6 +53,65 @@ func init() {
 				fmt.Fprintln(os.Stderr, err)
 				return 2
 			}
+		}
+		return writeJSON(*out, res)
+	}
+
+	// vh cbor-decode-sweep -out results.json [-table table.json] [-tier quick|thorough] [-seed S] [-workers N]
+	// C12: every byte string of length <= 3 (thorough) or <= 2 plus samples (quick), the inputs of the TLC
+	// verdict table, seeded random/mutated/adversarial strings up to 64 KiB, against every decode target in
+	// stream and whole-buffer mode; each call under recover, a watchdog and an allocation meter. The work is
+	// done by single-threaded child processes (the allocation meter is process wide).
+	commands["cbor-decode-sweep"] = func(args []string) int {
+		fs := flag.NewFlagSet("cbor-decode-sweep", flag.ExitOnError)
+		out := fs.String("out", "", "results JSON")
+		table := fs.String("table", "", "TLC verdict table (JSON list of BEHAVIOUR objects of Cbor_Tab.tla)")
+		tier := fs.String("tier", os.Getenv("VERIF_TIER"), "quick | thorough")
+		seed := fs.Int64("seed", 1, "seed")
+		workers := fs.Int("workers", runtime.NumCPU(), "child processes")
+		sample3 := fs.Int("sample3", 2048, "quick tier: number of random 2-byte prefixes whose 256 extensions are run")
+		nseeded := fs.Int("nseeded", 0, "number of seeded random/mutated/adversarial inputs (0: by tier)")
+		isChild := fs.Bool("child", false, "internal: run one shard")
+		job := fs.String("job", "", "internal")
+		shard := fs.Int("shard", 0, "internal")
+		of := fs.Int("of", 1, "internal")
+		from := fs.Int("from", 0, "internal")
+		partial := fs.String("partial", "", "internal")
+		status := fs.String("status", "", "internal")
+		skip := fs.String("skip", "", "internal")
+		_ = fs.Parse(args)
+		if *isChild {
+			var sk []string
+			if *skip != "" {
+				sk = strings.Split(*skip, ",")
+			}
+			return cborx.RunChild(*job, *shard, *of, *from, sk, *partial, *status)
+		}
+		if *tier == "" {
+			*tier = "quick"
+		}
+		if *nseeded == 0 {
+			*nseeded = 3000
+			if *tier == "thorough" {
+				*nseeded = 60000
+			}
+		}
+		self, err := os.Executable()
+		if err != nil {
+			fmt.Fprintln(os.Stderr, err)
+			return 2
+		}
+		dir, err := os.MkdirTemp(filepath.Dir(*out), "sweep-")
+		if err != nil {
+			fmt.Fprintln(os.Stderr, err)
+			return 2
+		}
+		defer os.RemoveAll(dir)
+		res, err := cborx.RunSweep(cborx.SweepOpts{Tier: *tier, Seed: *seed, Table: *table, Out: *out, Workers: *workers,
+			Sample3: *sample3, NSeeded: *nseeded, Self: self, Dir: dir})
+		if err != nil {
+			fmt.Fprintln(os.Stderr, err)
+			return 2
 		}
 		return writeJSON(*out, res)
 	}
